@@ -385,6 +385,11 @@ def get_counterexample(pid, harness, mem_gb, harness_timeout_s):
         r2 = run_kani([harness], 1, max(3 * harness_timeout_s, 900), max(mem_gb, 48), exact=True,
                       logname=f"{pid}-recheck-{sanitize(harness)}.log", cbmc_args=props.PROPS[pid].get("cbmc_args"))
         hr = r2["results"].get(harness)
+    allow = any(harness.endswith(x) for x in props.PROPS[pid].get("solver_rerun_ok", []))
+    if hr and "playback" not in hr and hr.get("verdict") == "fail" and not allow:
+        # no concrete test and the harness is not on the property's short list of harnesses whose
+        # counterexamples are known to be too large for Kani's playback: do NOT report a violation
+        return None
     if hr and "playback" not in hr and hr.get("verdict") == "fail":
         # Kani confirmed the failure a second time but its concrete-playback feature emitted no unit
         # test (a Kani limitation seen with large transmuted symbolic arrays).  Record a solver-rerun
